@@ -63,7 +63,55 @@ func registerHost(in *Interp) {
 	H["errors.New"] = func(in *Interp, a []Value, _ ssa.CallInstruction) Value {
 		return in.newError("errors.New@"+in.where(), nil)
 	}
-	// errors.Is: identity / equality along the %w chain (symbolic errno values give a symbolic answer)
+	// userMethod: the method of that name on the dynamic type of a (non-opaque) error value, if it is code
+	// the engine interprets (an error type of the code under test with its own Unwrap / Is)
+	userMethod := func(in *Interp, e Iface, name string) *Func {
+		if _, opaque := e.V.(*ErrObj); opaque || e.T == nil {
+			return nil
+		}
+		ms := in.Prog.MethodSets.MethodSet(e.T)
+		for i := 0; i < ms.Len(); i++ {
+			sel := ms.At(i)
+			if sel.Obj().Name() != name {
+				continue
+			}
+			fn := in.Prog.MethodValue(sel)
+			if fn == nil || fn.Blocks == nil {
+				return nil
+			}
+			root := fn
+			if o := fn.Origin(); o != nil {
+				root = o
+			}
+			if root.Pkg != nil && !in.InterpPkgs[root.Pkg.Pkg.Path()] {
+				return nil
+			}
+			if fn.Pkg == nil && fn.Synthetic != "" {
+				// a wrapper (promoted or pointer-receiver): allowed when what it wraps is interpreted
+				if obj, ok := sel.Obj().(*types.Func); ok && obj.Pkg() != nil && !in.InterpPkgs[obj.Pkg().Path()] {
+					return nil
+				}
+			}
+			return &Func{Fn: fn}
+		}
+		return nil
+	}
+	unwrapOnce := func(in *Interp, e Iface, site ssa.CallInstruction) (Value, bool) {
+		if eo, isObj := e.V.(*ErrObj); isObj {
+			if eo.Wrap != nil {
+				return eo.Wrap, true
+			}
+			return nil, false
+		}
+		if m := userMethod(in, e, "Unwrap"); m != nil && m.Fn.Signature.Results().Len() == 1 {
+			if _, isErr := m.Fn.Signature.Results().At(0).Type().Underlying().(*types.Interface); isErr {
+				return in.doCall(m, []Value{e.V}, site), true
+			}
+		}
+		return nil, false
+	}
+	// errors.Is: identity / equality along the chain (%w of opaque errors, Unwrap and Is methods of error
+	// types of the code under test); symbolic errno values give a symbolic answer
 	var errIs func(in *Interp, err, target Value, depth int) *sym.Term
 	errIs = func(in *Interp, err, target Value, depth int) *sym.Term {
 		e, ok := err.(Iface)
@@ -83,8 +131,16 @@ func registerHost(in *Interp) {
 				here = in.eqValues(e.V, t.V)
 			}
 		}
-		if eo, isObj := e.V.(*ErrObj); isObj && eo.Wrap != nil {
-			return in.B.Or(here, errIs(in, eo.Wrap, target, depth+1))
+		if m := userMethod(in, e, "Is"); m != nil && m.Fn.Signature.Params().Len() == 1 {
+			if r, ok := in.doCall(m, []Value{e.V, target}, nil).(*sym.Term); ok {
+				here = in.B.Or(here, r)
+			}
+		}
+		if here.IsTrue() {
+			return here
+		}
+		if next, ok := unwrapOnce(in, e, nil); ok {
+			return in.B.Or(here, errIs(in, next, target, depth+1))
 		}
 		return here
 	}
@@ -122,18 +178,18 @@ func registerHost(in *Interp) {
 				}
 				return in.B.True()
 			}
-			eo, isObj := e.V.(*ErrObj)
-			if !isObj || eo.Wrap == nil {
+			next, ok := unwrapOnce(in, e, nil)
+			if !ok {
 				break
 			}
-			cur = eo.Wrap
+			cur = next
 		}
 		return in.B.False()
 	}
 	H["errors.Unwrap"] = func(in *Interp, a []Value, _ ssa.CallInstruction) Value {
 		if e, ok := a[0].(Iface); ok && e.T != nil {
-			if eo, isObj := e.V.(*ErrObj); isObj && eo.Wrap != nil {
-				return eo.Wrap
+			if next, ok := unwrapOnce(in, e, nil); ok {
+				return next
 			}
 		}
 		return Iface{}
